@@ -84,6 +84,14 @@ Tick(t) == /\ t > now
 \* the end of the observed run is judged like a passing of time
 End == Quiet => open = {}
 
+\* C09 for an operator that hands out windows/groups and whose OWN function raised (own: the pipeline is that single
+\* operator): the failure stops the pipeline, so once the subscriber has its on_error and time passes no window/group
+\* it handed out may still be waiting for a terminal notification.
+\* C09 for a pipeline that is ONE operator (solo; nothing downstream that may still hold queued elements): after one of
+\* its functions raised, the only notification the subscriber may still be given is the error.
+FaultThenError(solo, k) == (solo /\ faulted) => k = "E"
+FaultEndsGroups(own) == (own /\ faulted /\ stopped) => live = {}
+
 Ev == nev' = nev + 1
 Next == /\ nev < MaxEv /\ Ev
         /\ \/ \E i \in Subs : SubOpen(i) \/ SubClose(i)
